@@ -36,6 +36,7 @@ def run(F, rep, tier):
                         "HashSet::contains / Vec indexing behave as documented"]
     longest_first_rule(F, rep)
     variable_before_scope_rule(F, rep)
+    first_in_rule(F, rep)
     binding_rule(F, rep)
     key_coverage_rule(F, rep)
     normalisation_rule(F, rep, tier)
@@ -362,6 +363,73 @@ def variable_before_scope_rule(F, rep):
             rep.undecided(rid, key, "the till_in test neither dominates nor follows the scope lookup")
 
 
+# ====================================================================================================== R10.6
+def first_in_rule(F, rep):
+    """`for x in a return x in b`: the variable ends at the *first* `in` of the collected parts. A forward `position` / `find` answers with the first; a loop that keeps
+    assigning the index without leaving takes the last."""
+    rid = rep.rule("R10.6", "the name of an iteration variable ends at the first `in` among the collected parts (forward search, first hit)")
+    n = 0
+    for name, h in sorted(F.hir.items()):
+        if not name.startswith("dmntk_feel_parser::lexer::") or "{closure" in name.split("::")[-1]:
+            continue
+        regions = [(h, None)] + [(F.hir[c.get("name")], par) for c, par in find_hir(h["body"], lambda x: x.get("k") == "Closure") if c.get("name") in F.hir]
+        for hh, _ in regions[:1]:
+            # comparisons with the literal "in"
+            tests = [(x, par) for x, par in find_hir(hh["body"], lambda x: (x.get("k") == "Binary" and x.get("op") == "==" and any(strip(x[k]).get("k") == "Lit" and strip(x[k]).get("v") == "in" for k in ("a", "b"))))]
+            for c, par in find_hir(hh["body"], lambda x: x.get("k") == "Closure"):
+                ch = F.hir.get(c.get("name"))
+                if ch:
+                    tests += [(x, par + (c,)) for x, _ in find_hir(ch["body"], lambda x: x.get("k") == "Binary" and x.get("op") == "==" and any(strip(x[k]).get("k") == "Lit" and strip(x[k]).get("v") == "in" for k in ("a", "b")))]
+            for x, par in tests:
+                n += 1
+                key = "first-in:%s" % name.split("::")[-1]
+                where = "%s:%s" % (h["file"], x.get("l", h["line"]))
+                clos = [p for p in par if p.get("k") == "Closure"]
+                if clos:
+                    # the closure is the predicate of a search: which one ?
+                    mcs = [p for p in par if p.get("k") == "MethodCall" and any(contains(a, clos[-1]) for a in p.get("args", []))]
+                    meth = mcs[-1].get("method") if mcs else None
+                    if meth in ("position", "find", "find_map", "any", "take_while", "skip_while"):
+                        names, root = chain_of(mcs[-1])
+                        if "rev" in names:
+                            rep.violation(rid, key, "%s searches the keyword `in` from the end of the collected parts: `for x in a return x in b` takes `x in a return x` for the variable" % name, where)
+                        else:
+                            rep.ok(rid, key, "forward `%s`" % meth)
+                    elif meth in ("rposition", "rfind"):
+                        rep.violation(rid, key, "%s searches the keyword `in` from the end of the collected parts (`%s`)" % (name, meth), where)
+                    else:
+                        rep.undecided(rid, key, "the comparison with `in` sits in a closure passed to `%s`" % meth)
+                    continue
+                loops = [p for p in par if p.get("k") == "Match" and p.get("src") == "ForLoopDesugar"]
+                ifs = [p for p in par if p.get("k") == "If" and contains(p.get("c"), x)]
+                if loops and ifs:
+                    leaves = find_hir(ifs[-1].get("then"), lambda y: y.get("k") in ("Break", "Ret"))
+                    it = strip(loops[-1]["e"])
+                    it = strip(it["args"][0]) if it.get("k") == "Call" and it.get("args") else it
+                    names, root = chain_of(it)
+                    if not leaves and "rev" not in names:
+                        rep.violation(rid, key, "%s keeps the index of the *last* `in` among the collected parts (the loop goes on after a hit): `for x in a return x in b` takes `x in a return x` "
+                                      "for the variable" % name, where)
+                    elif leaves and "rev" in names:
+                        rep.violation(rid, key, "%s stops at the first `in` of a reversed walk, i.e. at the last one" % name, where)
+                    else:
+                        rep.ok(rid, key, "loop leaves at the first hit")
+                else:
+                    rep.undecided(rid, key, "the comparison with `in` is neither a search predicate nor the test of a loop")
+    if not n:
+        rep.undecided(rid, "first-in", "no comparison with the keyword `in` in the lexer")
+
+
+def contains(tree, node):
+    if tree is node:
+        return True
+    if isinstance(tree, dict):
+        return any(contains(v, node) for v in tree.values() if isinstance(v, (dict, list)))
+    if isinstance(tree, list):
+        return any(contains(v, node) for v in tree)
+    return False
+
+
 # ====================================================================================================== R10.2
 def binding_rule(F, rep):
     rid = rep.rule("R10.2", "every derivation of a binding production of feel.y (context entry, iteration / quantified variable, formal parameter) contains an action that writes a name into the parsing context of its construct")
@@ -568,6 +636,30 @@ def key_coverage_rule(F, rep):
             rep.undecided(rid, "scope-stack", "Scope::flatten_keys does not call FeelContext::flatten_keys")
         else:
             rep.ok(rid, "scope-stack", "every context of the stack contributes its keys")
+    # ---- a key set kept in a field of the scope must be discarded by every method that changes the context stack
+    if h is not None:
+        cache_fields = sorted({strip(x).get("name") for hh in [h] + [F.hir[c.get("name")] for c, _ in find_hir(h["body"], lambda y: y.get("k") == "Closure") if c.get("name") in F.hir]
+                               for x, _ in find_hir(hh["body"], lambda y: y.get("k") == "Field" and strip(y.get("e", {})).get("name") == "self") if strip(x).get("name") not in ("contexts", None)})
+        if cache_fields:
+            MUT = {"push", "pop", "insert", "remove", "clear", "truncate", "set_entry", "set_null", "last_mut", "iter_mut", "get_mut", "swap_remove", "drain", "retain", "append", "extend", "first_mut", "push_back", "pop_back"}
+            stale = []
+            for n2, h2 in sorted(F.hir.items()):
+                if not n2.startswith("dmntk_feel::scope::Scope::") or "{closure" in n2 or n2 == FLATTEN_SCOPE:
+                    continue
+                al = aliases_of(h2)
+                mutates = False
+                for mc, _ in find_hir(h2["body"], lambda y: y.get("k") == "MethodCall" and y.get("method") in MUT):
+                    names, root = chain_of(mc, al)
+                    if root.get("k") == "Field" and root.get("name") == "contexts":
+                        mutates = True
+                touches = [x for x, _ in find_hir(h2["body"], lambda y: y.get("k") == "Field" and y.get("name") in cache_fields)]
+                if mutates and not touches:
+                    stale.append(n2.split("::")[-1])
+            if stale:
+                rep.violation(rid, "scope-cache", "Scope::flatten_keys answers from the field `%s`, but %s change(s) the context stack without touching it: the lexer keeps seeing names of contexts that "
+                              "are no longer in scope (or misses new ones)" % (cache_fields[0], ", ".join("Scope::" + x for x in stale)), "%s:%s" % (h["file"], h["line"]))
+            else:
+                rep.ok(rid, "scope-cache", "the cached key set (%s) is touched by every method that changes the context stack" % cache_fields[0])
     # ---- FeelContext::flatten_keys (and the private helpers it calls)
     h = F.hir.get(FLATTEN_CTX)
     if h is None:
@@ -670,6 +762,22 @@ def payload_binding(p, path):
         if r:
             return r
     return None
+
+
+def pat_paths(p):
+    out = []
+
+    def rec(q):
+        if isinstance(q, dict):
+            if q.get("path") and q.get("k") in ("TupleStruct", "Struct", "Path"):
+                out.append(q["path"])
+            for v in q.values():
+                rec(v)
+        elif isinstance(q, list):
+            for x in q:
+                rec(x)
+    rec(p)
+    return out
 
 
 def selectors_on_local(body, name, F):
